@@ -16,7 +16,12 @@ import (
 // (every p until the rotation no longer reaches it); a fault-free rotation; after every committed object write the
 // store is reloaded through a fresh authority and checked (c11Consistent). Direct oracle only (the write-log model
 // describes operations that start from the stored state).
-func c11SameAuthority(c *Ctx) {
+func c11SameAuthority(c *Ctx) { sameAuthoritySweep(c, "c11") }
+
+// sameAuthoritySweep runs the history for property prop: "c11" checks the store after every committed write,
+// "c10" checks the failure-atomicity clauses after the faulted rotation and after the retry ON THE SAME OBJECTS
+// (recorded primary live, certified for its key, chaining to the stored root; the retry with overwrite succeeds).
+func sameAuthoritySweep(c *Ctx, prop string) {
 	for _, ca := range []string{"gcsmem", "gcslocal"} {
 		for p := 0; p < 40; p++ {
 			dir, err := os.MkdirTemp("", "verif-c11s-")
@@ -26,6 +31,9 @@ func c11SameAuthority(c *Ctx) {
 			var bad []string
 			fs := &faultStore{inner: in.store, f: ctl}
 			fs.onW = func(obj string, _ []byte) {
+				if prop != "c11" {
+					return
+				}
 				if ok, why := c11Consistent(in.objects()); !ok {
 					bad = append(bad, fmt.Sprintf("after the write of %s: %s", obj, why))
 				}
@@ -44,10 +52,23 @@ func c11SameAuthority(c *Ctx) {
 				_, e := rotate.Key(rotateCtx(keys.NewContext(quietCtx(false), kctx()), "sig", 3))
 				return e
 			})
+			if prop == "c10" {
+				if clause, detail := c10Oracle(in); clause != "" {
+					c.Find("c10/same-authority/after-fault/"+clause, "one authority object, rotation failing at storage call "+fmt.Sprint(p)+": "+detail, fmt.Sprintf("ca=%s fault-position=%d", ca, p))
+				}
+			}
 			res2, _ := run(nil, func() error {
 				_, e := rotate.Key(rotateCtx(keys.NewContext(quietCtx(true), kctx()), "sig", 4))
 				return e
 			})
+			if prop == "c10" {
+				if res2 != "ok" {
+					c.Find("c10/same-authority/retry-fails", "a fault-free rotation with overwrite on the SAME authority object after a rotation that failed at storage call "+fmt.Sprint(p)+" does not succeed", fmt.Sprintf("ca=%s fault-position=%d results=%s,%s,%s", ca, p, res0, res1, res2))
+				}
+				if clause, detail := c10Oracle(in); clause != "" {
+					c.Find("c10/same-authority/after-retry/"+clause, "one authority object, failed rotation then retry: "+detail, fmt.Sprintf("ca=%s fault-position=%d", ca, p))
+				}
+			}
 			os.RemoveAll(dir)
 			c.Count(fmt.Sprintf("same-authority/%s/boot-%s/faulted-rotation-%s/next-rotation-%s", ca, res0, res1, res2))
 			for _, b := range bad {
